@@ -280,6 +280,33 @@ pub fn code_7702(rng: &mut Prng, n_eoa: usize, base: usize, hot_slots: u64, pre_
         Intent { sender: authority, to: Some(eoa(other)), value: U256::from(9), data: Bytes::new(), gas_limit: 60_000, auths: vec![], label: "transfer-from-authority" },
     ];
     let n = rng.range(2, 7) as usize;
+    if rng.chance(1, 5) {
+        // storyline: a transaction of the authority, then SOMEBODY ELSE's transaction carrying the
+        // authority's authorisation (which consumes the authority's next nonce), then the authority
+        // again - once with the nonce that is right in order, or with the one the authorisation has just
+        // consumed (skipped in order as too low, yet perfectly valid for whoever trusts a stale nonce)
+        let third = (0..n_eoa).find(|i| *i != authority).unwrap_or(other);
+        let mut out = vec![
+            Intent::call(authority, t1, &[0, 1], "tx-from-authority"),
+            auth_tx(0, third, vec![(Some(authority), if rng.chance(1, 2) { t1 } else { t2 }, 0, cs[0])], "7702-set-by-third-party"),
+        ];
+        let stale = rng.chance(1, 2);
+        out.push(Intent {
+            sender: authority,
+            to: Some(eoa(other)),
+            value: U256::from(9),
+            data: Bytes::new(),
+            gas_limit: 60_000,
+            auths: vec![],
+            label: if stale { "tx-from-authority-stale" } else { "transfer-from-authority" },
+        });
+        out.push(Intent::call(authority, t1, &[0, 2], "tx-from-authority"));
+        for _ in 0..rng.below(3) {
+            let at = rng.below(out.len() as u64 + 1) as usize;
+            out.insert(at, rng.pick(&pool).clone());
+        }
+        return out;
+    }
     (0..n).map(|_| rng.pick(&pool).clone()).collect()
 }
 
